@@ -351,93 +351,108 @@ Fixpoint inputs_get (k : name) (l : list (name * json)) : option json :=
   | (k', v) :: r => if name_eqb k k' then Some v else inputs_get k r
   end.
 
+Definition prec := pstate -> json -> option str -> res (schema * pstate).
+
+(* parse_known_schema / fetch_schema_ref *)
+Definition parse_known_with (rec : prec) (st : pstate) (t : str) (ens : option str) : res (schema * pstate) :=
+  if is_key t "null" then Ok (SNull, st) else if is_key t "boolean" then Ok (SBoolean, st)
+  else if is_key t "int" then Ok (SInt, st) else if is_key t "long" then Ok (SLong, st)
+  else if is_key t "double" then Ok (SDouble, st) else if is_key t "float" then Ok (SFloat, st)
+  else if is_key t "bytes" then Ok (SBytes, st) else if is_key t "string" then Ok (SString, st)
+  else
+    do n <- name_new t ens;
+    match names_get n (p_parsed st) with
+    | Some _ => Ok (SRef n, st)
+    | None =>
+      match names_get n (p_resolving st) with
+      | Some s => Ok (s, st)
+      | None =>
+        if is_key (nm n) "record" || is_key (nm n) "enum" || is_key (nm n) "fixed" then Err
+        else
+          match inputs_get n (p_inputs st) with
+          | None => Err
+          | Some v =>
+            let st0 := mkP (inputs_remove n (p_inputs st)) (p_resolving st) (p_parsed st) in
+            do (parsed, st1) <- rec st0 v None;
+            do key <- schema_type_name n v;
+            Ok (get_schema_ref parsed, mkP (p_inputs st1) (p_resolving st1) (names_insert key parsed (p_parsed st1)))
+          end
+      end
+    end.
+
+(* parse_record *)
+Definition parse_record_with (rec : prec) (fuel : nat) (st : pstate) (m : list (str * json)) (ens : option str)
+  : res (schema * pstate) :=
+  match lookup (K "fields") m, already_seen st m ens with
+  | None, Some seen => Ok (seen, st)
+  | fo, _ =>
+    do n <- name_parse m ens;
+    do al <- fix_aliases (j_aliases_of m) (ns n);
+    let st1 := register_resolving st n al in
+    match fo with
+    | Some (JArr fl) =>
+      do (fs, st2) <- parse_fields rec fuel st1 fl (ns n);
+      if fields_dup fs [] then Err
+      else
+        let s := SRecord n al (jstring (K "doc") m) fs (custom_attrs m [K "fields"]) in
+        Ok (s, register_parsed st2 n s al)
+    | _ => Err
+    end
+  end.
+
+(* the last match of parse_complex: by the "type" key *)
+Definition native_with (rec : prec) (fuel : nat) (st : pstate) (m : list (str * json)) (ens : option str)
+  : res (schema * pstate) :=
+  match lookup (K "type") m with
+  | Some (JStr t) =>
+    if is_key t "record" then parse_record_with rec fuel st m ens
+    else if is_key t "enum" then parse_enum st m ens
+    else if is_key t "array" then
+      match lookup (K "items") m with
+      | Some it => do (s, st1) <- rec st it ens; Ok (SArray s (custom_attrs m [K "items"]), st1)
+      | None => Err end
+    else if is_key t "map" then
+      match lookup (K "values") m with
+      | Some vt => do (s, st1) <- rec st vt ens; Ok (SMap s (custom_attrs m [K "values"]), st1)
+      | None => Err end
+    else if is_key t "fixed" then parse_fixed st m ens
+    else parse_known_with rec st t ens
+  | Some (JObj _ as inner) => rec st inner ens
+  | Some (JArr _ as inner) => rec st inner ens
+  | Some _ => Err
+  | None => Err
+  end.
+
+(* parse_complex *)
+Definition parse_obj_with (rec : prec) (fuel : nat) (st : pstate) (m : list (str * json)) (ens : option str)
+  : res (schema * pstate) :=
+  match lookup (K "logicalType") m with
+  | Some (JStr lt) =>
+    if known_logical lt then
+      (* parse_as_native_complex: a "type": "fixed" goes to parse_fixed, anything else to parse *)
+      do (s, st1) <- match lookup (K "type") m with
+                     | Some (JStr t) => if is_key t "fixed" then parse_fixed st m ens else rec st (JStr t) ens
+                     | Some v => rec st v ens
+                     | None => Err end;
+      Ok (convert_logical lt m s, st1)
+    else native_with rec fuel st m ens
+  | Some _ => Err
+  | None => native_with rec fuel st m ens
+  end.
+
+(* parse_union *)
+Definition parse_union_with (rec : prec) (st : pstate) (l : list json) (ens : option str) : res (schema * pstate) :=
+  do (bs, st1) <- parse_branches rec st l ens;
+  if union_check bs [] [] then Ok (SUnion bs, st1) else Err.
+
 Fixpoint parse (fuel : nat) (st : pstate) (j : json) (ens : option str) {struct fuel} : res (schema * pstate) :=
   match fuel with
   | O => OutOfFuel
   | S f =>
-    let parse_known (st : pstate) (t : str) (ens : option str) : res (schema * pstate) :=
-      if is_key t "null" then Ok (SNull, st) else if is_key t "boolean" then Ok (SBoolean, st)
-      else if is_key t "int" then Ok (SInt, st) else if is_key t "long" then Ok (SLong, st)
-      else if is_key t "double" then Ok (SDouble, st) else if is_key t "float" then Ok (SFloat, st)
-      else if is_key t "bytes" then Ok (SBytes, st) else if is_key t "string" then Ok (SString, st)
-      else
-        (* fetch_schema_ref *)
-        do n <- name_new t ens;
-        match names_get n (p_parsed st) with
-        | Some _ => Ok (SRef n, st)
-        | None =>
-          match names_get n (p_resolving st) with
-          | Some s => Ok (s, st)
-          | None =>
-            if is_key (nm n) "record" || is_key (nm n) "enum" || is_key (nm n) "fixed" then Err
-            else
-              match inputs_get n (p_inputs st) with
-              | None => Err
-              | Some v =>
-                let st0 := mkP (inputs_remove n (p_inputs st)) (p_resolving st) (p_parsed st) in
-                do (parsed, st1) <- parse f st0 v None;
-                do key <- schema_type_name n v;
-                Ok (get_schema_ref parsed, mkP (p_inputs st1) (p_resolving st1) (names_insert key parsed (p_parsed st1)))
-              end
-          end
-        end in
     match j with
-    | JStr t => parse_known st t ens
-    | JArr l =>
-      do (bs, st1) <- parse_branches (parse f) st l ens;
-      if union_check bs [] [] then Ok (SUnion bs, st1) else Err
-    | JObj m =>
-      (* parse_complex *)
-      let native (st : pstate) : res (schema * pstate) :=
-        match lookup (K "type") m with
-        | Some (JStr t) =>
-          if is_key t "record" then
-            (* parse_record *)
-            match lookup (K "fields") m, already_seen st m ens with
-            | None, Some seen => Ok (seen, st)
-            | fo, _ =>
-              do n <- name_parse m ens;
-              do al <- fix_aliases (j_aliases_of m) (ns n);
-              let st1 := register_resolving st n al in
-              match fo with
-              | Some (JArr fl) =>
-                do (fs, st2) <- parse_fields (parse f) f st1 fl (ns n);
-                if fields_dup fs [] then Err
-                else
-                  let s := SRecord n al (jstring (K "doc") m) fs (custom_attrs m [K "fields"]) in
-                  Ok (s, register_parsed st2 n s al)
-              | _ => Err
-              end
-            end
-          else if is_key t "enum" then parse_enum st m ens
-          else if is_key t "array" then
-            match lookup (K "items") m with
-            | Some it => do (s, st1) <- parse f st it ens; Ok (SArray s (custom_attrs m [K "items"]), st1)
-            | None => Err end
-          else if is_key t "map" then
-            match lookup (K "values") m with
-            | Some vt => do (s, st1) <- parse f st vt ens; Ok (SMap s (custom_attrs m [K "values"]), st1)
-            | None => Err end
-          else if is_key t "fixed" then parse_fixed st m ens
-          else parse_known st t ens
-        | Some (JObj _ as inner) => parse f st inner ens
-        | Some (JArr _ as inner) => parse f st inner ens
-        | Some _ => Err
-        | None => Err
-        end in
-      match lookup (K "logicalType") m with
-      | Some (JStr lt) =>
-        if known_logical lt then
-          (* parse_as_native_complex: a "type": "fixed" goes to parse_fixed, anything else to parse *)
-          do (s, st1) <- match lookup (K "type") m with
-                          | Some (JStr t) => if is_key t "fixed" then parse_fixed st m ens else parse f st (JStr t) ens
-                          | Some v => parse f st v ens
-                          | None => Err end;
-          Ok (convert_logical lt m s, st1)
-        else native st
-      | Some _ => Err
-      | None => native st
-      end
+    | JStr t => parse_known_with (parse f) st t ens
+    | JArr l => parse_union_with (parse f) st l ens
+    | JObj m => parse_obj_with (parse f) f st m ens
     | _ => Err
     end
   end.
